@@ -255,6 +255,14 @@ impl Prioritize {
             // The stream has no capacity to send the frame now, save it but
             // don't notify the connection task. Once additional capacity
             // becomes available, the frame will be flushed.
+            #[cfg(feature = "verif-hooks")]
+            crate::verif::ev("disp.park_frame", || {
+                vec![
+                    stream.verif_serial,
+                    u32::from(stream.id) as i64,
+                    frame.is_end_stream() as i64,
+                ]
+            });
             stream.pending_send.push_back(buffer, frame.into());
         }
 
@@ -880,6 +888,10 @@ impl Prioritize {
             // on the wire for a stream the peer has not heard of.
             if let Frame::PushPromise(ref pp) = frame {
                 if let Some(mut pushed) = stream.store_mut().find_mut(&pp.promised_id()) {
+                    #[cfg(feature = "verif-hooks")]
+                    crate::verif::ev("prio.drop_promised", || {
+                        vec![pushed.verif_serial, u32::from(pushed.id) as i64]
+                    });
                     pushed.is_pending_push = false;
                     while pushed.pending_send.pop_front(buffer).is_some() {}
                     pushed.buffered_send_data = 0;
